@@ -49,6 +49,15 @@ let dispatch = function
   | ["vnode"; fx; fz; n; e; s; w; pi; px; py; pz] ->
       hex_of_z (v_nodeZ (z_of_hex pi) (z_of_hex px) (z_of_hex py) (z_of_hex pz) (b fx) (b fz) (b n) (b e) (b s) (b w))
   | ["mlchoice"; vs] -> string_of_int (int_of_nat (ml_choice (List.map z_of_hex (String.split_on_char ',' vs))))
+  | ["delta"; dims] ->
+      (match List.map int_of_string (String.split_on_char '.' dims) with
+       | [a; b; c; d] ->
+           let out = ref [] in
+           for n = 0 to a - 1 do for e = 0 to b - 1 do for s = 0 to c - 1 do for w = 0 to d - 1 do
+             out := int_of_z (delta_valZ (List.map nat_of_int [a; b; c; d]) (List.map nat_of_int [n; e; s; w])) :: !out
+           done done done done;
+           String.concat "," (List.rev_map string_of_int !out)
+       | _ -> "ERR BadRequest")
   | ["spancount"; len; gens] -> string_of_int (int_of_nat (span_count (nat_of_int (int_of_string len)) (rows_of_string gens)))
   | _ -> "ERR BadRequest"
 let () = main dispatch
